@@ -371,11 +371,11 @@ LayerApplyOne ==
 StepsEnd ==
   /\ InSteps /\ layerTodo = {} /\ staged = <<>> /\ layers = <<>>
   /\ phases' = phases + 1
+  /\ ranPhase' = {} /\ invPhase' = {}
   /\ pc' = IF pc = "csteps" THEN "cemit" ELSE "emit"
   /\ UNCHANGED <<now, endT, force, lastForce, calls, live, front, toPoll,
                  fullStep, quiet, due, data, emitv, liveSteps, deps,
-                 seqSteps, layers, layerTodo, staged, ranPhase, invPhase,
-                 phaseSet>>
+                 seqSteps, layers, layerTodo, staged, phaseSet>>
 
 -----------------------------------------------------------------------------
 (* Emission.  With emit_step = 1 one row per batch.  Otherwise the rows of  *)
